@@ -9,6 +9,7 @@ import (
 	"fmt"
 	"os"
 	"sync"
+	"time"
 )
 
 var (
@@ -238,3 +239,7 @@ func SymbolicClock() {}
 // Regroup ends the case splits in force and starts a new one on v in one step: afterwards exactly
 // the paths with equal v merge.
 func Regroup(v int) int { return v }
+
+// Quiesce waits until the goroutines started so far have finished or blocked (natively: a short
+// sleep, the started goroutines are trivial event listeners).
+func Quiesce() { time.Sleep(30 * time.Millisecond) }
